@@ -600,8 +600,8 @@ class Inliner:
         # helper locals that are not locals of the calling function in the reference get a fresh name per inlined instance (two inlined
         # copies must not share temporaries); locals that the caller already had (statements moved out verbatim) keep their name
         own = stored - set(h.params)
-        # (a generator helper runs interleaved with the loop that consumes it: a local it shares by name with the consuming function would be overwritten between two yields)
-        clash = getattr(self, 'caller_cur_names', set()) if h.is_gen else set()
+        # (a generator helper runs interleaved with the loop that consumes it: a local it shares by name with what the loop body binds would be overwritten between two yields)
+        clash = getattr(self, 'consumer_stores', {}).get(h.f.name, set()) if h.is_gen else set()
         fresh = {n: f'{n}__i{self._instance()}' for n in sorted(own) if n not in self.caller_ref_names or n in clash}
         if fresh:
             class R(ast.NodeTransformer):
@@ -865,7 +865,13 @@ class Inliner:
         for q, f in list(alpha.functions(self.tree)):
             n0 = len(self.done)
             self.caller_ref_names = set((alpha.reference().get(self.relpath) or {}).get(q, {}).keys())
-            self.caller_cur_names = {n_.id for n_ in ast.walk(f) if isinstance(n_, ast.Name) and isinstance(n_.ctx, (ast.Store, ast.Del))} | {a_.arg for a_ in ast.walk(f.args) if isinstance(a_, ast.arg)}
+            # what the body of a loop over a helper call binds, per helper name: these names live between two yields of the helper
+            self.consumer_stores = {}
+            for l_ in ast.walk(f):
+                if isinstance(l_, ast.For) and isinstance(l_.iter, ast.Call):
+                    callee = l_.iter.func.attr if isinstance(l_.iter.func, ast.Attribute) else l_.iter.func.id if isinstance(l_.iter.func, ast.Name) else None
+                    if callee is not None:
+                        self.consumer_stores.setdefault(callee, set()).update(n_.id for b_ in l_.body for n_ in ast.walk(b_) if isinstance(n_, ast.Name) and isinstance(n_.ctx, (ast.Store, ast.Del)))
             # locals of the caller that are bound (only) to a fresh instance of a class: `labeller = _BinLabeller(..)` - their type is known
             self.typed_locals = {}
             for a_ in ast.walk(f):
